@@ -15,8 +15,20 @@ import (
 	"reflect"
 	"sort"
 	"strings"
+	realsync "sync"
 	"unsafe"
 )
+
+// parts of sync the scheduler does not model are passed through unchanged
+type (
+	Once      = realsync.Once
+	WaitGroup = realsync.WaitGroup
+	Map       = realsync.Map
+	Pool      = realsync.Pool
+	Cond      = realsync.Cond
+)
+
+var NewCond = realsync.NewCond
 
 // RWMutex and Mutex stand in for sync.RWMutex / sync.Mutex in rewritten files.
 type RWMutex struct{ _ [8]byte }
